@@ -2,6 +2,7 @@ package main
 
 import (
 	"fmt"
+	"go/token"
 	"go/types"
 	"reflect"
 	"strings"
@@ -20,40 +21,99 @@ func reallocatedBeforeOverrideMerge(c *Ctx) map[string]bool {
 	if get == nil {
 		return out
 	}
+	pa := newProv(c)
+	fam := getFamily(c, get)
 	var second *ssa.Call
-	forEachInstr(get, func(in ssa.Instruction) {
-		call, ok := in.(*ssa.Call)
-		if !ok || !calleeIs(call, mergoPath, "", "Merge") {
-			return
-		}
-		dst := call.Call.Args[0]
-		if mi, ok := dst.(*ssa.MakeInterface); ok {
-			dst = mi.X
-		}
-		if p, root := addrPath(dst); root != nil && p == "Overridables" {
-			second = call
-		}
-	})
+	for _, fn := range fam {
+		forEachInstr(fn, func(in ssa.Instruction) {
+			call, ok := in.(*ssa.Call)
+			if !ok || !calleeIs(call, mergoPath, "", "Merge") {
+				return
+			}
+			dst := call.Call.Args[0]
+			if mi, ok := dst.(*ssa.MakeInterface); ok {
+				dst = mi.X
+			}
+			if p, root := addrPath(dst); root != nil && p == "Overridables" {
+				second = call
+			}
+		})
+	}
 	if second == nil {
 		return out
 	}
-	forEachInstr(get, func(in ssa.Instruction) {
+	freshInfo := func(root ssa.Value) bool {
+		_, isAlloc := resolveUp(c, pa, root).(*ssa.Alloc)
+		return isAlloc
+	}
+	forEachInstr(second.Parent(), func(in ssa.Instruction) {
 		st, ok := in.(*ssa.Store)
-		if !ok || !instrDominates(st, second) {
+		if !ok {
 			return
 		}
-		p, root := addrPath(st.Addr)
-		if root == nil || !strings.HasPrefix(p, "Overridables.") {
+		// direct: info.X.KeyID = <fresh>
+		if p, root := addrPath(st.Addr); root != nil && strings.HasPrefix(p, "Overridables.") {
+			if instrDominates(st, second) && freshInfo(root) && freshPointer(c, st.Val) {
+				out[strings.TrimPrefix(p, "Overridables.")] = true
+			}
 			return
 		}
-		if _, isAlloc := root.(*ssa.Alloc); !isAlloc {
+		// table-driven: for _, p := range []**string{&info.A, &info.B} { *p = &copy }
+		ld, ok := st.Addr.(*ssa.UnOp)
+		if !ok || ld.Op != token.MUL {
 			return
 		}
-		if freshPointer(c, st.Val) {
-			out[strings.TrimPrefix(p, "Overridables.")] = true
+		ia, ok := ld.X.(*ssa.IndexAddr)
+		if !ok {
+			return
+		}
+		arr, done := fullRangeOver(ia, ld)
+		if arr == nil || !(done == second.Block() || done.Dominates(second.Block())) || !freshPointer(c, st.Val) {
+			return
+		}
+		// the store may sit behind a nil test of the pointer only
+		for _, ref := range *arr.Referrers() {
+			slot, ok := ref.(*ssa.IndexAddr)
+			if !ok || slot == ia {
+				continue
+			}
+			for _, r2 := range *slot.Referrers() {
+				if es, ok := r2.(*ssa.Store); ok && es.Addr == ssa.Value(slot) {
+					if p, root := addrPath(es.Val); root != nil && strings.HasPrefix(p, "Overridables.") && freshInfo(root) {
+						out[strings.TrimPrefix(p, "Overridables.")] = true
+					}
+				}
+			}
 		}
 	})
 	return out
+}
+
+// getFamily: Config.Get and the module functions it hands the Info it is
+// building to (the override step extracted into a helper).
+func getFamily(c *Ctx, get *ssa.Function) []*ssa.Function {
+	fam := []*ssa.Function{get}
+	seen := map[*ssa.Function]bool{get: true}
+	for i := 0; i < len(fam) && i < 4; i++ {
+		forEachInstr(fam[i], func(in ssa.Instruction) {
+			call, ok := in.(*ssa.Call)
+			if !ok {
+				return
+			}
+			sc := call.Call.StaticCallee()
+			if sc == nil || sc.Blocks == nil || !c.isModuleFunc(sc) || seen[sc] {
+				return
+			}
+			for _, a := range call.Call.Args {
+				if isPtrToNamed(a.Type(), modPath, "Info") {
+					seen[sc] = true
+					fam = append(fam, sc)
+					return
+				}
+			}
+		})
+	}
+	return fam
 }
 
 // freshPointer: an allocation, or the result of a module function all of
@@ -183,13 +243,16 @@ func checkC13(c *Ctx, r *Report) {
 		return
 	}
 	var merges []*ssa.Call
-	forEachInstr(get, func(in ssa.Instruction) {
-		if call, ok := in.(*ssa.Call); ok {
-			if o := calleeObj(call); o != nil && o.Pkg() != nil && o.Pkg().Path() == mergoPath {
-				merges = append(merges, call)
+	pa := newProv(c)
+	for _, fn := range getFamily(c, get) {
+		forEachInstr(fn, func(in ssa.Instruction) {
+			if call, ok := in.(*ssa.Call); ok {
+				if o := calleeObj(call); o != nil && o.Pkg() != nil && o.Pkg().Path() == mergoPath {
+					merges = append(merges, call)
+				}
 			}
-		}
-	})
+		})
+	}
 	r.Check(len(merges) == 2, "S-get", "number of merges in Config.Get", c.pos(get.Pos()), fmt.Sprintf("%d mergo calls; exactly two are expected (base into fresh Info, override block into its overridable part)", len(merges)))
 	var formatParam *ssa.Parameter
 	for _, p := range get.Params {
@@ -224,8 +287,9 @@ func checkC13(c *Ctx, r *Report) {
 		if mi, ok := src.(*ssa.MakeInterface); ok {
 			src = mi.X
 		}
+		src = resolveUp(c, pa, src)
 		if i == 0 {
-			_, fresh := dst.(*ssa.Alloc)
+			_, fresh := resolveUp(c, pa, dst).(*ssa.Alloc)
 			srcOK := false
 			if ld, ok := src.(*ssa.UnOp); ok {
 				if p, root := addrPath(ld.X); root != nil && p == "Info" && isPtrToNamed(root.Type(), modPath, "Config") {
@@ -236,7 +300,10 @@ func checkC13(c *Ctx, r *Report) {
 				fmt.Sprintf("destination is a fresh *Info=%v, source is the configuration's Info by value=%v", fresh, srcOK))
 		} else {
 			p, root := addrPath(dst)
-			_, fresh := root.(*ssa.Alloc)
+			fresh := false
+			if root != nil {
+				_, fresh = resolveUp(c, pa, root).(*ssa.Alloc)
+			}
 			dstOK := p == "Overridables" && fresh
 			// source: lookup in c.Overrides keyed by the format parameter
 			srcOK := false
